@@ -104,15 +104,32 @@ def build_route(case):
         b.interior_edges
         return M.mesh.copy(b, copy_attributes=True, copy_connectivity=True), route
     if route == "edges_explicit":
-        # (part of) the edges declared by the caller, in arbitrary order and orientation (big, small); the rest is completed
+        # edges declared by the caller in every spelling: any subset of the sides of the faces, in arbitrary order, either
+        # orientation (big, small), some declared twice (same or opposite orientation), as tuples / lists / numpy rows, and
+        # invalid rows mixed in (degenerate (x,x), out of range, negative) which mouette documents it filters; the rest of
+        # the sides is completed from the faces.  (Valid declared edges are always sides: an extra polyline edge is not a
+        # surface edge of this property.)
         import random
         rr = random.Random(case.get("script_seed", 0) + 7)
         und = sorted({tuple(sorted((F[i], F[(i + 1) % len(F)]))) for F in faces for i in range(len(F))})
         rr.shuffle(und)
         und = und[:rr.randint(1, len(und))]
+        rows = [(b, a) if rr.random() < 0.5 else (a, b) for a, b in und]
+        if rr.random() < 0.5:
+            for _ in range(rr.randint(1, 3)):
+                a, b = rr.choice(und)
+                rows.insert(rr.randrange(len(rows) + 1), rr.choice([(a, b), (b, a)]))
+        if rr.random() < 0.6:
+            for _ in range(rr.randint(1, 3)):
+                x = rr.randrange(nv)
+                bad = rr.choice([(x, x), (x, nv + rr.randint(0, 2)), (nv, x), (-1 - rr.randint(0, 2), x), (x, -1), (nv + 1, nv + 1)])
+                rows.insert(rr.randrange(len(rows) + 1), bad)
+        conv = rr.choice([tuple, list, lambda r: np.array(r)])
+        if case.get("declared_edges") is not None:      # replay / corpus: the rows exactly as recorded
+            rows, conv = [tuple(r) for r in case["declared_edges"]], tuple
         d = M.mesh.RawMeshData()
         d.vertices += _pts(nv)
-        d.edges += [(b, a) if rr.random() < 0.5 else (a, b) for a, b in und]
+        d.edges += [conv(r) for r in rows]
         d.faces += [list(F) for F in faces]
         return M.mesh.SurfaceMesh(d), route
     if route == "merge":
